@@ -183,6 +183,7 @@ func newE2Run(tr *E2Trace, withMonitors bool) *e2run {
 	if withMonitors {
 		r.mon = newMonitor(r)
 		r.w.API.OnEntry = append(r.w.API.OnEntry, r.mon.onEntry)
+		r.w.OnMid = r.mon.onMid
 	}
 	for _, j := range tr.JCs {
 		if _, err := r.w.UserCreate(sim.ResJobConfigs, j.object()); err != nil {
@@ -247,12 +248,21 @@ func (r *e2run) stepQueue(q *sim.Queue) {
 			r.mon.beforeJobSync(q.Keys()[0])
 		}
 	}
+	if r.mon != nil {
+		r.mon.reconcileBoundary()
+	}
 	r.w.StepQueue(q)
+	if r.mon != nil {
+		r.mon.reconcileBoundary()
+	}
 }
 
 // apply executes one op. It must be total: ops that are not enabled are no-ops.
 func (r *e2run) apply(op E2Op) {
 	w := r.w
+	if r.mon != nil {
+		r.mon.reconcileBoundary()
+	}
 	if !w.Alive && r.tr.AutoRestart && op.K != "restart" {
 		w.Kill()
 		if err := w.StartProcess(); err != nil {
@@ -333,10 +343,19 @@ func (r *e2run) apply(op E2Op) {
 			if q == w.QJob && q.Len() > 0 && r.mon != nil {
 				r.mon.beforeJobSync(q.Keys()[0])
 			}
+			if r.mon != nil {
+				r.mon.reconcileBoundary()
+			}
 			w.StepQueue(q)
+			if r.mon != nil {
+				r.mon.reconcileBoundary()
+			}
 		}
 	case "tick":
 		w.CronTick()
+		if r.mon != nil {
+			r.mon.reconcileBoundary()
+		}
 	case "requeueCron": // duplicate / out-of-order re-delivery of an old (JobConfig, schedule time) key
 		if w.Alive {
 			w.QCron.Add(op.A)
@@ -964,6 +983,17 @@ func runE2(tr E2Trace, props map[string]bool) pbt.Result {
 	r.mon.props = props
 	debug := os.Getenv("VERIF_DEBUG") != ""
 	if debug {
+		sim.DebugDeliver = func(typ, key string, old interface{}, obj runtime.Object) {
+			if j, ok := obj.(*execution.Job); ok {
+				fmt.Printf("      deliver %s job %s rv=%s phase=%s start=%v (had=%v) counter=%v\n", typ, key, j.ResourceVersion, j.Status.Phase, j.Status.StartTime != nil, old != nil, func() int64 {
+					if r.w.Store == nil || len(r.w.API.JobConfigs()) == 0 {
+						return -1
+					}
+					return r.w.Store.CountActiveJobsForConfig(r.w.API.JobConfigs()[0])
+				}())
+			}
+		}
+		defer func() { sim.DebugDeliver = nil }()
 		b, _ := json.Marshal(tr.JCs)
 		fmt.Printf("SETUP cfg=%+v\n jcs=%s\n", tr.Cfg, b)
 		r.w.API.OnEntry = append(r.w.API.OnEntry, func(e *sim.Entry) {
@@ -1012,6 +1042,14 @@ func (r *e2run) dump() {
 	}
 	for _, p := range r.w.API.Pods() {
 		fmt.Printf("      pod %s phase=%q node=%q del=%v\n", p.Name, p.Status.Phase, p.Spec.NodeName, p.DeletionTimestamp != nil)
+	}
+	if r.w.Store != nil {
+		for _, jc := range r.w.API.JobConfigs() {
+			fmt.Printf("      counter %s=%d\n", jc.Name, r.w.Store.CountActiveJobsForConfig(jc))
+		}
+	}
+	for _, j := range r.mon.ctrlCachedJobs() {
+		fmt.Printf("      ctrl-cache job %s rv=%s phase=%s start=%v\n", j.Name, j.ResourceVersion, j.Status.Phase, j.Status.StartTime != nil)
 	}
 	var qs []string
 	if r.w.Alive {
